@@ -699,3 +699,22 @@ Definition res2_eqb (a b : result (list val * dtype)) : bool :=
 Definition c09_check_session (c : list sstep * list (result (list val * dtype))) : bool :=
   list_eqb res2_eqb (sess_run [] 0%Z (fst c)) (snd c).
 Definition c09_show_session (c : list sstep * list (result (list val * dtype))) := sess_run [] 0%Z (fst c).
+
+(* ------------------------------------------------------------------ *)
+(* Part 5: what a column DECLARES next to its data                      *)
+(* ------------------------------------------------------------------ *)
+(* The descriptive constructor arguments that look like they could matter to an encoding: the size in the
+   type name and the schema-level [default=] (FlatColumn.default - NOT the sparse [default_value]).
+   SparseColumn(values=l, default_value=a, default=..., type=...): [a = None] is the argument left out;
+   leaving it out is passing None, and nothing of the declaration is consulted. *)
+Record decl := mkdecl { d_size : option N; d_default : option val }.
+
+Definition sparse_default_arg (a : option val) : val := match a with None => VNull | Some v => v end.
+
+Definition sparse_col_np (dc : decl) (a : option val) (l : list val) (f : option fn) : result obs :=
+  sparse_np l (sparse_default_arg a) f.
+
+Definition c09_check_sparse_decl (c : decl * option val * list val * option fn * result obs) : bool :=
+  let '(dc, a, l, f, o) := c in res_eqb (sparse_col_np dc a l f) o.
+Definition c09_show_sparse_decl (c : decl * option val * list val * option fn * result obs) :=
+  let '(dc, a, l, f, o) := c in sparse_col_np dc a l f.
